@@ -165,4 +165,10 @@ def replay(ctx, path):
     case = json.load(open(path))['case']
     r = native.run_cases(native.build(), [case])[0]
     print(json.dumps(r)[:600])
-    return 1 if ('panic' in r or 'hang' in r or 'abort' in r) else 0
+    if 'panic' in r or 'hang' in r or 'abort' in r: return 1
+    o = r.get('ok') or {}
+    def canon(x):
+        if isinstance(x, dict) and 'defs' in x: return {'defs': sorted(set(x['defs'])), 'fits': x['fits'], 'entity': x['entity']}
+        if isinstance(x, list): return sorted(set(x))
+        return x
+    return 1 if canon(o.get('warm')) != canon(o.get('cold')) else 0
